@@ -60,52 +60,41 @@ class Lock:
 
 # ------------------------------------------------------------------ Coq
 
-def coq_hygiene():
-    """No Admitted/admit/Axiom/Parameter/... anywhere in the development (generated files excluded)."""
+def coq_hygiene(files=None):
+    """No Admitted/admit/Axiom/Parameter/... in the given files of coq/ (default: every .v file
+    outside gen/). Each check passes the dependency closure of its own property file, so a file
+    another property still has under construction cannot fail it; tools/hygiene_all.py covers the tree."""
     bad = []
-    for root, _, files in os.walk(COQ):
-        if os.path.abspath(root).startswith(os.path.abspath(GEN)):
-            continue
-        for f in files:
-            if not f.endswith(".v"):
+    if files is None:
+        files = []
+        for root, _, fs in os.walk(COQ):
+            if os.path.abspath(root).startswith(os.path.abspath(GEN)):
                 continue
-            p = os.path.join(root, f)
-            txt = open(p, encoding="utf-8").read()
-            # strip comments (non-nested is enough for a conservative check: we search the raw text too)
-            for i, line in enumerate(txt.split("\n"), 1):
-                code = re.sub(r"\(\*.*?\*\)", "", line)
-                if FORBIDDEN.search(code):
-                    bad.append("%s:%d: %s" % (os.path.relpath(p, VERIF), i, line.strip()))
+            files += [os.path.relpath(os.path.join(root, f), COQ) for f in fs if f.endswith(".v")]
+    for f in sorted(files):
+        p = os.path.join(COQ, f)
+        txt = open(p, encoding="utf-8").read()
+        txt = re.sub(r"\(\*.*?\*\)", lambda m: re.sub(r"[^\n]", " ", m.group(0)), txt, flags=re.S)
+        for i, line in enumerate(txt.split("\n"), 1):
+            if FORBIDDEN.search(line):
+                bad.append("%s:%d: %s" % (os.path.join("coq", f), i, line.strip()))
     return bad
 
 
 def coq_make(targets=None, timeout=3000):
-    """Full .vo build of the needed targets (never -vos). Returns (ok, log)."""
+    """Full .vo build of the needed targets and exactly their dependencies (never -vos), through
+    tools/coqbuild.py (a restricted coq_makefile Makefile). Returns (ok, log)."""
     with Lock("coq"):
-        sh([os.path.join(VERIF, "tools", "mkcoq.sh")], check=True)
-        cmd = ["make", "-C", COQ, "-j16"] + (targets or [])
-        rc, out = sh(cmd, timeout=timeout)
+        rc, out = sh(["python3", os.path.join(VERIF, "tools", "coqbuild.py")] + (targets or []), timeout=timeout)
         return rc == 0, out
 
 
 def coq_deps(vfile):
     """Transitive .v dependencies of coq/<vfile> inside the Verif tree (including itself)."""
-    seen, todo = set(), [vfile]
-    while todo:
-        f = todo.pop()
-        if f in seen:
-            continue
-        seen.add(f)
-        txt = open(os.path.join(COQ, f), encoding="utf-8").read()
-        for m in re.finditer(r"From\s+Verif\s+Require\s+(?:Import|Export)?\s*([^.]*(?:\.[A-Za-z_][\w.]*)*)\s*\.\s", txt + " "):
-            for mod in m.group(1).split():
-                cand = mod.replace(".", "/") + ".v"
-                if os.path.exists(os.path.join(COQ, cand)):
-                    todo.append(cand)
-        for m in re.finditer(r"Require\s+(?:Import|Export)?\s+Verif\.([\w.]+)\s*\.", txt):
-            cand = m.group(1).replace(".", "/") + ".v"
-            if os.path.exists(os.path.join(COQ, cand)):
-                todo.append(cand)
+    sys.path.insert(0, os.path.join(VERIF, "tools"))
+    import coqbuild
+    seen = set()
+    coqbuild.deps_of(vfile, seen)
     return sorted(seen)
 
 
@@ -338,7 +327,10 @@ def proof_stage(ctx, prop_file, extra_targets=None):
     module), Print Assumptions. Returns dict for the evidence; on failure registers a
     no-failing-input-found violation naming the broken obligation."""
     info = {}
-    bad = coq_hygiene()
+    deps = set(coq_deps(prop_file))
+    for t in (extra_targets or []):
+        deps |= set(coq_deps(t))
+    bad = coq_hygiene(sorted(deps))
     targets = [prop_file.replace(".v", ".vo")] + [t.replace(".v", ".vo") for t in (extra_targets or [])]
     ok, out = coq_make(targets)
     names = coq_obligations(prop_file)
